@@ -1750,7 +1750,15 @@ class SSHConnection(SSHPacketHandler, asyncio.Protocol):
 
         if self._transport:
             if self._recv_seq == 0xffffffff and not self._recv_encryption:
-                raise ProtocolError('Sequence rollover before kex complete')
+                exc = ProtocolError('Sequence rollover before kex complete')
+
+                if not is_async:
+                    raise exc
+
+                # Called as a task callback: nothing above would catch this
+                self._send_disconnect(exc.code, exc.reason, exc.lang)
+                self._force_close(exc)
+                return
 
             if pkttype == MSG_NEWKEYS and self._strict_kex:
                 self._recv_seq = 0
